@@ -241,6 +241,55 @@ fn epilogue(sc: &MScenario, sim: &mut Sim, h: &mut MHandle) -> Option<Violation>
     if let Some(v) = with_w(|w| w.pending_violation.take()) {
         return Some(v);
     }
+    if sc.drop_handles_first {
+        // C06(e): every pool handle goes away while objects are still checked out; the objects
+        // must remain usable and must be destroyed exactly once.
+        let pool = with_w(|w| {
+            w.all_handles_dropped = true;
+            w.pool.take()
+        });
+        let r = std::panic::catch_unwind(std::panic::AssertUnwindSafe(move || drop(pool)));
+        if r.is_err() {
+            return Some(engine::violation("C06", "object_outlives_pool", "dropping the last pool handle panicked".into()));
+        }
+        let held: Vec<SObject> = with_w(|w| {
+            let mut v = Vec::new();
+            for h in w.held.iter_mut() {
+                v.append(h);
+            }
+            v
+        });
+        for (k, obj) in held.into_iter().enumerate() {
+            let id = obj.id;
+            let r = std::panic::catch_unwind(std::panic::AssertUnwindSafe(move || {
+                let _ = deadpool::managed::Object::metrics(&obj).recycle_count;
+                let alive = deadpool::managed::Object::pool(&obj).is_some();
+                if k % 2 == 0 {
+                    drop(obj);
+                } else {
+                    let inner = deadpool::managed::Object::take(obj);
+                    drop(inner);
+                }
+                alive
+            }));
+            match r {
+                Err(p) => {
+                    let (_, msg) = describe_panic(&p);
+                    return Some(engine::violation("C06", "object_outlives_pool", format!("using object #{id} after every pool handle was dropped panicked: {msg}")));
+                }
+                Ok(true) => {
+                    return Some(engine::violation("C06", "object_outlives_pool", format!("object #{id} still reaches a pool after every handle was dropped")));
+                }
+                Ok(false) => {}
+            }
+            let destroyed = with_w(|w| w.objs[id as usize].destroyed.is_some());
+            if !destroyed {
+                return Some(engine::violation("C06", "object_outlives_pool", format!("object #{id} was not destroyed when its last owner let go of it")));
+            }
+            with_w(|w| w.cnt.probe("object_used_after_pool_gone"));
+        }
+        return with_w(|w| w.pending_violation.take());
+    }
     // return everything that is still held (controller context: points do not yield)
     let held: Vec<SObject> = with_w(|w| {
         let mut v = Vec::new();
@@ -277,7 +326,8 @@ fn epilogue(sc: &MScenario, sim: &mut Sim, h: &mut MHandle) -> Option<Violation>
     if let Some(v) = with_w(|w| moracle::final_checks(w, None)) {
         return Some(v);
     }
-    let wants_probe = matches!(sc.profile.as_str(), "C02" | "C03" | "C07" | "C09");
+    let resized = with_w(|w| w.max_size_log.len() > 1);
+    let wants_probe = matches!(sc.profile.as_str(), "C02" | "C03" | "C07") || (sc.profile == "C09" && !resized);
     if wants_probe {
         let (pool, expect, closed) = with_w(|w| {
             (
